@@ -1,15 +1,41 @@
-"""B-attrs: attribute forms (DESIGN.md 6 C03, Appendix A.2; safety C01; views C10).
+"""B-attrs: attribute forms, the size table, skip == read, value normalisation  (DESIGN.md 6 C03, Appendix A.2;
+safety C01; views C10).  All functions are owned by C01 + C03 (built-in overflow / bounds / unwrap / termination obligations).
 
-Functions under contract (all from the real text of /repo/src):
-  read/abbrev.rs  AttributeSpecification::{new, name, form, implicit_const_value, parse}, get_attribute_size
-  read/unit.rs    allow_section_offset, parse_attribute, skip_attributes,
+Functions under contract (verbatim text of /repo/src, rewrite rules of lib.py only):
+  read/abbrev.rs  AttributeSpecification::{new, name, form, implicit_const_value, size, parse}, get_attribute_size
+  read/unit.rs    allow_section_offset, parse_attribute (R-SPLIT: 4 verified verbatim copies), skip_attributes,
                   AttributeValue::{u8_value, u16_value, udata_value, sdata_value, offset_value, exprloc_value},
-                  Attribute::{name, form, raw_value, value, u8_value .. exprloc_value}
+                  Attribute::{name, form, raw_value, value, u8_value, u16_value, udata_value, sdata_value, offset_value,
+                  exprloc_value},  UnitHeader::encoding (only as the argument of AttributeSpecification::size)
+  types           AttributeSpecification, AttributeValue, Attribute, Expression, UnitType, UnitHeader (R-FIELDS: `section`)
 
-The per-form postconditions of `parse_attribute` and `get_attribute_size`, and the spec functions `fixed_size` /
-`var_len` that `skip_attributes` is proved against, are all generated from ONE table (FORMS below), written from DWARF 5
-table 7.5/7.6 (form codes, classes, encodings) plus the GNU forms; the size table and the decode switch therefore
-cannot drift apart unnoticed.
+One source of truth: the per-form postconditions of `parse_attribute` and `get_attribute_size` AND the spec functions
+`fixed_size` / `var_len` / `known_form` (vx/specs/attrs.rs, marker /*GENERATED*/) that `skip_attributes`,
+`AttributeSpecification::size` and the clause [C03:read-len] are stated against are generated from ONE Python table
+(FORMS), written from DWARF 5 table 7.5/7.6 with NUMERIC form codes (a changed constant in constants.rs is caught too)
+plus the GNU forms.  The value-normalisation clauses of `Attribute::value` come from the tables SECPTR / EXPRLOC_NAMES /
+ENUM_NAMES / UDATA_NAMES (table 7.5: class of each attribute name, numeric DW_AT codes).
+
+skip == read is one-directional (DESIGN C03): `skip_attributes` Ok ==> advanced by exactly attrs_end(..), the recursive
+spec of what reading the specs one by one consumes ([C03:read-len] says parse_attribute Ok ==> advanced by attr_end(..)).
+"read fails ==> skip fails" is false of the code by design (skip_leb128 accepts over-long LEB128; an address size outside
+{1,2,4,8} is skipped but not read) and is not claimed.
+
+Finding (genuine defect, fails on the pinned tree -> exit 1):  F2  skip_attributes `skip_bytes += R::Offset::from_u8(len)`
+possible arithmetic overflow.  Native reproducer native/src/bin/f_attrs_1.rs (fix described there; with the fix applied
+the whole contract of skip_attributes verifies).
+
+Assumed (TRUSTED = core's ledger, nothing added):
+  verif_unreachable, Result::and_then, reader_clone            (core batch)
+  A-DERIVE-EQ (ghost text, not an external_body): `==` of #[derive(PartialEq)] on DwForm / DwAt / Format is structural
+              equality (PartialEqSpecImpl).  Verus gives derived PartialEq no spec; without it `form == DW_FORM_x` is opaque.
+  R-CLONE     4 logged rewrites: `x.clone()` on AttributeValue<R> / Expression<R> / R (derived Clone of a generic type has
+              no spec in Verus) -> attrvalue_clone / expression_clone / reader_clone.  The first two are VERIFIED models of
+              what derive(Clone) generates; they rest only on reader_clone.
+  closure contracts of `|val| u8::try_from(val).ok()` / u16: inserted annotation, verified against the closure body.
+Not decided here: read/line.rs parse_attribute (line-table variant), Abbreviation::parse_attributes / Attributes (batch
+units), AttributeValue::string_value* (need DebugStr), EntriesRaw wrappers, readers with Offset != usize (A-OFFSET),
+agreement with llvm-dwarfdump.
 """
 from lib import *
 from batches import core
@@ -17,6 +43,7 @@ from batches import core
 TRUSTED = list(core.TRUSTED)
 VERUS_ARGS = ['--rlimit', '40']
 RETRY_RLIMIT = 120
+MULTIPLE_ERRORS = 6
 
 OWN = ['C01', 'C03']
 
@@ -366,15 +393,30 @@ def parse_clauses():
         view = '[C10:view]' if 'window' in cons else ''
         out.append(f'[C03:decode-{short}]{view} {HEAD} f == {code:#x} ==> ({{ {operand_lets(kind)} '
                    f'(val matches {pat} && ({cons}) && adv(b0, final(input).rv(), (p + n) as nat)) }}) }})')
-    # one clause that ties reading to the generated size functions (what skip_attributes is proved against)
-    out.append('[C03:read-len] res is Ok ==> adv(old(input).rv(), final(input).rv(), '
-               f'attr_end(old(input).rv(), {ENC}, spec.sform().0 as nat, 0) as nat)')
-    out.append('[C03:unknown-form] !known_form(ind_form(old(input).rv(), spec.sform().0 as nat, 0)) ==> res is Err')
-    # the value of an implicit const lives in the abbreviation; reached through DW_FORM_indirect there is none
-    out.append('[C03:implicit-const-indirect] spec.sform().0 != 0x21 && ind_form(old(input).rv(), spec.sform().0 as nat, 0) == 0x21 ==> res is Err')
-    out.append('[C03:attr-name] res matches Ok(attr) ==> attr.sname() == spec.sname() && attr.sform() == spec.sform()')
-    out.append('[C01:frame] within(old(input).rv(), final(input).rv())')
-    return out
+    # R-SPLIT partitions the list round-robin (clause i goes to copy i % SPLIT); lay the list out so that the copies are:
+    # the decode clauses in SPLIT-1 groups, and one copy with the size-function clause and the error/frame clauses
+    misc = [
+        # ties reading to the generated size functions (what skip_attributes is proved against)
+        '[C03:read-len] res is Ok ==> adv(old(input).rv(), final(input).rv(), '
+        f'attr_end(old(input).rv(), {ENC}, spec.sform().0 as nat, 0) as nat)',
+        '[C03:unknown-form] !known_form(ind_form(old(input).rv(), spec.sform().0 as nat, 0)) ==> res is Err',
+        # ... and only unknown forms are rejected as such (a dropped arm of the decode switch is caught here)
+        '[C03:unknown-form-only] res matches Err(Error::UnknownForm(f)) ==> !known_form(f.0 as nat)',
+        # the value of an implicit const lives in the abbreviation; reached through DW_FORM_indirect there is none
+        '[C03:implicit-const-indirect] spec.sform().0 != 0x21 && ind_form(old(input).rv(), spec.sform().0 as nat, 0) == 0x21 ==> res is Err',
+        '[C03:attr-name] res matches Ok(attr) ==> attr.sname() == spec.sname() && attr.sform() == spec.sform()',
+        '[C01:frame] within(old(input).rv(), final(input).rv())']
+    k = SPLIT - 1
+    groups = [out[i::k] for i in range(k)] + [misc]
+    n = max(len(g) for g in groups)
+    res = []
+    for i in range(n):
+        for g in groups:
+            res.append(g[i] if i < len(g) else 'true')
+    return res
+
+
+SPLIT = 4
 
 
 def size_clauses():
@@ -458,12 +500,11 @@ def populate(ctx, sk):
     # ---- read::abbrev
     sk.module('read::abbrev', '''use crate::common::Encoding;
 use crate::constants;
-use crate::read::{Error, Reader, ReaderOffset, Result};
+use crate::read::{Error, Reader, ReaderOffset, Result, UnitHeader};
 use crate::vspec::*;
 use crate::aspec::*;''')
     sk.add('read::abbrev', ab.item(r'^pub struct AttributeSpecification \{').clean())
     asi = ab.item(r'^impl AttributeSpecification \{', label='AttributeSpecification')
-    asi.drop(['size'])
     asi.clean()
     asi.own(OWN)
     asi.insert_members(SPEC_GHOST)
@@ -476,6 +517,10 @@ use crate::aspec::*;''')
     asi.splice('implicit_const_value', ret='res', ensures=[
         '[C03:implicit-const-value] res == (if self.sform().0 == 0x21 { Some(self.sconst()) } else { None::<i64> })'])
     B0 = 'old(input).rv()'
+    # the advertised size of a form is the size table's entry for the unit's encoding
+    asi.splice('size', ret='res', ensures=[
+        '[C03:advertised-size] (res matches Some(n) ==> fixed_size(self.sform().0 as nat, header.sencoding()) == Some(n as nat)) && '
+        '(res is None ==> fixed_size(self.sform().0 as nat, header.sencoding()) is None)'])
     asi.splice('parse', ret='res', ensures=[
         # DWARF 5 7.5.3: a series of attribute specifications: ULEB name, ULEB form, and for DW_FORM_implicit_const a
         # third SLEB operand holding the value; the series ends with an entry containing 0 for the name and 0 for the form
@@ -506,6 +551,19 @@ use crate::read::{AttributeSpecification, Error, Expression, Reader, ReaderOffse
 use crate::read::reader_clone;
 use crate::vspec::*;
 use crate::aspec::*;''')
+    # UnitHeader: only what AttributeSpecification::size needs (the header itself belongs to batch `units`)
+    sk.add('read::unit', un.item(r'^pub enum UnitType<Offset>').clean(rejrec=['Offset']))
+    uh = un.item(r'^pub struct UnitHeader<R, Offset', label='UnitHeader')
+    uh.custom('R-FIELDS', 'section: SectionId,', '')     # no extracted function touches it
+    uh.clean(rejrec=['R', 'Offset'])
+    sk.add('read::unit', uh)
+    uhi = un.item(r'^impl<R, Offset> UnitHeader<R, Offset>\nwhere\n[^{]*\{\s*pub fn section', label='UnitHeader(instance)')
+    uhi.keep_only(['encoding'])
+    uhi.clean(offset=False)
+    uhi.own(OWN)
+    uhi.insert_members('    pub closed spec fn sencoding(&self) -> Encoding { self.encoding }')
+    uhi.splice('encoding', ret='res', ensures=['res == self.sencoding()'])
+    sk.add('read::unit', uhi)
     sk.add('read::unit', un.item(r'^pub enum AttributeValue<R, Offset').clean(rejrec=['R', 'Offset']))
     sk.add('read::unit', un.item(r'^pub struct Attribute<R: Reader>').clean(rejrec=['R']))
     sk.add('read::unit', gen_value_specs(), label='value-specs')
@@ -514,7 +572,7 @@ use crate::aspec::*;''')
     SV = '*self'
     avi = un.item(r'^impl<R, Offset> AttributeValue<R, Offset>', label='AttributeValue')
     avi.drop(['string_value', 'string_value_sup'])       # need DebugStr (batch units/str)
-    avi.custom('R-CLONE', 'Expression(data.clone())', 'Expression(reader_clone(data))')
+    avi.custom('R-CLONE', 'Expression(data.clone())', 'Expression(reader_clone(data))', count=-1)
     avi.custom('R-CLONE', 'AttributeValue::Exprloc(ref data) => data.clone()', 'AttributeValue::Exprloc(ref data) => expression_clone(data)')
     avi.clean(offset=False)
     avi.own(OWN)
@@ -545,16 +603,16 @@ use crate::aspec::*;''')
 
     pa = un.item(r'^pub\(crate\) fn parse_attribute<').clean()
     P = '(input.rv().start - old(input).rv().start)'
-    pa.splice('parse_attribute', ret='res', ensures=parse_clauses(), owners=OWN, split=3,
+    pa.splice('parse_attribute', ret='res', ensures=parse_clauses(), owners=OWN, split=SPLIT,
               loops={0: f'''invariant within(old(input).rv(), input.rv()),
                   ind_form(old(input).rv(), spec.sform().0 as nat, 0) == ind_form(old(input).rv(), form.0 as nat, {P}),
                   ind_pos(old(input).rv(), spec.sform().0 as nat, 0) == ind_pos(old(input).rv(), form.0 as nat, {P}),
                   decreases input.rv().len'''},
               before=[('let dynamic_form = input.read_uleb128_u16()?;',
                        f'proof {{ lemma_ind_step(old(input).rv(), {P} as int); }}'),
-                      ('let string = input.read_null_terminated_slice()?;', 'let ghost v0 = input.rv();')],
-              after=[('let mut form = spec.form();', 'proof { reveal(attr_end); }'),
-                     ('let string = input.read_null_terminated_slice()?;',
+                      ('let string = input.read_null_terminated_slice()?;', 'let ghost v0 = input.rv();'),
+                      ('let attr = Attribute {', 'proof { reveal(attr_end); }')],
+              after=[('let string = input.read_null_terminated_slice()?;',
                       'proof { lemma_cstr_len0(v0, string.rv().len); let b0 = old(input).rv(); let p0 = v0.start - b0.start; '
                       'assert forall|j: int| p0 <= j < p0 + string.rv().len implies #[trigger] b0.at(j) != 0 by { assert(v0.at(j - p0) != 0); } }')])
     sk.add('read::unit', pa)
@@ -569,14 +627,16 @@ use crate::aspec::*;''')
     TOTAL = f'attrs_end({B}, encoding, specs@, 0, 0)'
     sa.splice('skip_attributes', ret='res', owners=OWN, ensures=[
         f'[C03:skip-eq-read] res is Ok ==> adv({B}, final(input).rv(), {TOTAL} as nat)',
+        '[C03:skip-unknown-form-only] res matches Err(Error::UnknownForm(f)) ==> !known_form(f.0 as nat)',
         f'[C01:frame] within({B}, final(input).rv())'],
         loops={0: f'''invariant within({B}, input.rv()),
-                   {TOTAL} == attrs_end({B}, encoding, specs@, it.index as int, {PEND}),''',
+                   {TOTAL} == attrs_end({B}, encoding, specs@, it.index as int, {PEND}), // [C03:skip-eq-read]
+''',
                1: f'''invariant_except_break within({B}, input.rv()),
                    0 <= it.index@ < specs@.len(), spec == specs@[it.index@], 
-                   {TOTAL} == attrs_end({B}, encoding, specs@, it.index@ + 1, attr_end({B}, encoding, form.0 as nat, {PEND})),
+                   {TOTAL} == attrs_end({B}, encoding, specs@, it.index@ + 1, attr_end({B}, encoding, form.0 as nat, {PEND})), // [C03:skip-eq-read]
                    ensures within({B}, input.rv()), 0 <= it.index@ < specs@.len(),
-                   {TOTAL} == attrs_end({B}, encoding, specs@, it.index@ + 1, {PEND}),
+                   {TOTAL} == attrs_end({B}, encoding, specs@, it.index@ + 1, {PEND}), // [C03:skip-eq-read]
                    decreases input.rv().len'''},
         before=[('let dynamic_form = input.read_uleb128_u16()?;', f'proof {{ lemma_attr_end_indirect({B}, encoding, {PEND} as int); }}'),
                 ('match form {', f'proof {{ lemma_attr_end_var({B}, encoding, form.0 as nat, {PEND} as int); }}'),
